@@ -1,12 +1,20 @@
 """which contract modules exist, and per property: claimed level, assumptions, bounded stand-ins"""
-MODULES = ['contracts.c19_boxes']
+MODULES = ['contracts.c19_boxes', 'contracts.c01_membership']
 
 A_PY = 'A-PY: CPython semantics of the modelled subset (ints exact, dict/list/str methods, left-to-right evaluation)'
 A_REAL = 'A-REAL: floats are treated as real numbers (no rounding, no overflow)'
 A_INT = 'A-INT: integers are mathematical (no int64 overflow in numpy integer corners)'
 A_NUMPY = 'A-NUMPY: numpy ufuncs are point-wise, floor/ceil mathematical, basic slicing with in-range bounds is the window'
 
+A_TRIG = 'A-TRIG: cos/sin of each angle atom are reals (c, s) with c^2+s^2=1; sums of angles are expanded by the addition formulas'
+A_UNITS = 'A-UNITS: astropy Quantity/Angle arithmetic, unit conversion and comparison as modelled in externals/units.py'
+A_KERNEL_PIP = 'assumed contract of the compiled kernel points_in_polygon: result[k] = crossing parity of (x[k], y[k]) (externals/geometry_pnpoly.py)'
+
 PROPERTIES = {
+    'C01': dict(level='proof', trusted=[A_PY, A_REAL, A_TRIG, A_NUMPY, A_UNITS, A_KERNEL_PIP],
+                assumptions=[A_PY, A_REAL, A_TRIG, A_NUMPY, A_UNITS, A_KERNEL_PIP,
+                             'query arrays of rank 0, 1 and 2 with symbolic sizes stand for N-D arrays (ufuncs are rank-agnostic)',
+                             'positions on the exact boundary are left open (open spec => code => closed spec)']),
     'C19': dict(level='proof', trusted=[A_PY, A_REAL, A_INT, 'astropy.io.fits.util._is_int(v) == isinstance(v, int) (assumed contract)',
                                         'numpy.floor/ceil are the mathematical floor/ceiling'],
                 assumptions=[A_PY, A_REAL, A_INT]),
